@@ -343,3 +343,10 @@ func vStreamPutSplit(s int, whole, inner []byte, size int) {
 	st.buf = append(st.buf, whole[at:]...)
 	st.buf = append(st.buf, '\n')
 }
+
+// vPreemptOn / vPreemptOff delimit the phase in which the engine explores pre-emptions (no-ops natively).
+func vPreemptOn()  {}
+func vPreemptOff() {}
+
+// vSchedPolicy selects the engine's thread-choice policy for the following phase (no-op natively).
+func vSchedPolicy(n int) {}
